@@ -6,6 +6,7 @@ import Xrl.Spec.Scatter
 import Xrl.Spec.Groups
 import Xrl.Spec.Auger
 import Xrl.Spec.Cascade
+import Xrl.Spec.JumpRatio
 /-!
 # `spec.*` operations of the driver: the executable specifications in the `Float` reading
 
@@ -55,6 +56,12 @@ def dispatchSpec (T : Tables Float) (fn : String) (a : Array String) : Option St
   | "spec.augerRate", 2 => some ("value " ++ fmtF (Spec.augerRate T (pI a[0]!) (pI a[1]!)))
   | "spec.constAuger", 3 => some ("value " ++ fmtF (Spec.constAuger T (pI a[0]!) (pI a[1]!) (pI a[2]!)))
   | "spec.constFull", 3 => some ("value " ++ fmtF (Spec.constFull T (pI a[0]!) (pI a[1]!) (pI a[2]!)))
+  | "spec.CS_FluorShell", 3 => some (fmtE (Spec.CS_FluorShell T (pI a[0]!) (pI a[1]!) (pF a[2]!)))
+  | "spec.CS_FluorLine", 3 => some (fmtE (Spec.CS_FluorLine T (pI a[0]!) (pI a[1]!) (pF a[2]!)))
+  | "spec.CSb_FluorShell", 3 => some (fmtE (Spec.CSb_FluorShell T (pI a[0]!) (pI a[1]!) (pF a[2]!)))
+  | "spec.CSb_FluorLine", 3 => some (fmtE (Spec.CSb_FluorLine T (pI a[0]!) (pI a[1]!) (pF a[2]!)))
+  | "spec.edgeOrderFailures", 0 => some ("list " ++ toString (Spec.edgeOrderFailures T))
+  | "spec.lineShellNamesAgree", 0 => some ("bool " ++ toString Spec.lineShellNamesAgree)
   | "spec.shapeFailures", 0 => some ("shape " ++ toString ((Spec.shapeFailures T).map (fun p => p.1 ++ ":" ++ toString p.2)))
   | _, _ => none
 
